@@ -8,12 +8,14 @@ LEVEL = "proof"
 MANIFEST = dict(
     cat="proof", tech="Coq-verified checkers applied after every vine swap / removal: state must be a valid decomposition of the CURRENT order",
     text="'As if rebuilt from scratch' is decided through the checker theorems (C06_check_RU_sound, C06_certified_lows_canonical, "
-         "C06_pairing_unique; all primes, all sizes): after every vine_swap / vine_swap_with_z_eq_1_case / remove_maximal_cell / remove_last / "
+         "C06_pairing_unique; all primes, all sizes; plus the transposition theorems C06_vine_swap_*): after every vine_swap / vine_swap_with_z_eq_1_case / remove_maximal_cell / remove_last / "
          "re-insertion of random walks over admissible orders, the exposed (R,U) or chain basis must be accepted by the verified checker for "
          "the boundary matrix of the current order, the barcode must be the certified canonical pairing of that order, and the returned "
          "boolean must equal whether the barcode changed; later operations are checked the same way on the continued history.",
-    note="Trusted: as C05. The vineyard case analysis itself is not modelled in Coq (DESIGN C06 theorem vine_swap_inv not attempted); every reachable "
-         "state of the runs is certified instead. Four recorded known findings (identifier conventions of RU vine updates, chain insertion after "
+    note="Trusted: as C05. The vineyard case analysis is proved at the level of R (coq/VineSwap.v: C06_vine_swap_complete - preparation, exchange, "
+         "recombination of columns i and i+1, interacting columns; every swap ends in a reduced decomposition of the new order); U/V as matrices, "
+         "the stored barcode, lazily swapped rows and the identifier/position maps are not modelled: every reachable state of the runs is "
+         "certified by the verified checker instead. Four recorded known findings (identifier conventions of RU vine updates, chain insertion after "
          "swaps) are excluded by situation predicates.",
     ref="DESIGN.md section 4 C06")
 CORRESPONDENCE = c05.CORRESPONDENCE
